@@ -34,8 +34,8 @@ def main():
             for rp in re.findall(r"^VIOLATION property=\w+ replay=(\S+)", out, re.M):
                 try:
                     r = json.load(open(rp))
-                    for v in r.get("violations", [{"guard": r.get("guard", "?")}]):
-                        guards[v["guard"]] = guards.get(v["guard"], 0) + 1
+                    for vi in r.get("violations", [{"guard": r.get("guard", "?")}]):
+                        guards[vi["guard"]] = guards.get(vi["guard"], 0) + 1
                 except Exception:
                     pass
             tool = re.search(r"^TOOL-ERROR.*", out, re.M)
